@@ -64,7 +64,7 @@ impl Prop for P {
                     Some((bits, start, fill)) => BufMode::Ring { bits: *bits, start: *start, fill_seed: *fill },
                 };
                 let mut d = DecompressorOxide::new();
-                let r = drive(&mut d, &data, &DriveOpts { flags: zflags(zl), mode, sched, canary: true, max_calls: None, announce: true, flat_start: if ring.is_none() { *flat_start as usize } else { 0 } }, plain_hook)?;
+                let r = drive(&mut d, &data, &DriveOpts { flags: zflags(zl), mode, sched, canary: true, max_calls: None, announce: true, flat_start: if ring.is_none() { *flat_start as usize } else { 0 }, probe_full_ring: *slack % 2 == 1 }, plain_hook)?;
                 cx.evals(r.calls);
                 let ring_legal = match mode {
                     BufMode::Flat { .. } => true,
